@@ -372,7 +372,8 @@ class Run:
                 if not ok:
                     self.problems.append({"what": "fact extraction failed (source shape not recognised)", "log": lg[-1500:]})
             try:
-                pok, plog = spec.pregen(rd)
+                r = spec.pregen(rd)
+                pok, plog = (True, "") if r is None else r
             except Exception as e:
                 pok, plog = False, repr(e)
             if not pok:
